@@ -13,6 +13,7 @@ The only state is `data_view` (node samples), `coeffs_view`, `calculated_view`; 
 function of its 4^d node samples, so the arithmetic behind a value is the same whatever was evaluated before:
 bit identity is demanded for history independence.
 """
+import bisect
 import math
 import os
 
@@ -22,6 +23,9 @@ from hypothesis import strategies as st
 from ..core import Given
 from ..findings import is_open
 
+from raysect.core.math.function.float.function1d.autowrap import PythonFunction1D
+from raysect.core.math.function.float.function2d.autowrap import PythonFunction2D
+from raysect.core.math.function.float.function3d.autowrap import PythonFunction3D
 from cherab.core.math.caching import Caching1D, Caching2D, Caching3D
 
 ID = "C14"
@@ -92,13 +96,21 @@ TOLERANCES = {
 }
 
 _ONLY = set(filter(None, os.environ.get("VERIF_ONLY", "").split(",")))
-REQUIRED_LABELS = [l for l in [
-    "%s:%s" % (d, x) for d in ("d1", "d2", "d3") for x in
-    ("fam:mlin", "fam:quad", "fam:sin", "fb:none", "fb:true", "fb:loose", "fb:degenerate", "nbe:0", "nbe:1",
-     "pt:on-node", "pt:on-limit", "pt:outside", "out:raised", "out:passthrough", "res:divides")
-] if not _ONLY or l.split(":")[0] in _ONLY]
+_COMMON = ("fam:mlin", "fam:quad", "fam:sin", "fam:const", "fb:none", "fb:true", "fb:loose", "fb:degenerate", "fb:degenerate-nonconst",
+           "alt:none", "alt:true", "alt:loose", "alt:degenerate", "nbe:0", "nbe:1",
+           "pt:on-node", "pt:on-limit", "pt:zero", "pt:grid-end", "pt:outside", "out:raised", "out:passthrough",
+           "res:divides", "edge-cell:nondiv", "cells:1", "cells:2", "cells:3-12", "cells:max", "geom:int",
+           # entry points / options / input forms: Caching{1,2,3}D.__init__ (positional, keywords, defaults), __call__, C-level evaluate()
+           "form:all-keywords", "form:positional", "form:defaults-omitted", "form:nbe-int", "form:area-int", "form:area-numpy",
+           "form:res-int", "form:res-numpy", "form:fb-list", "form:fb-ndarray", "form:fn-object", "form:pt-int", "form:pt-numpy",
+           "form:via-evaluate", "caller:fb-mutated-after")
+REQUIRED_LABELS = [l for l in
+                   ["%s:%s" % (d, x) for d in ("d1", "d2", "d3") for x in _COMMON]
+                   + ["d1:cells:large", "d2:cells:large", "d2:aniso", "d3:aniso", "d2:mlin:cross-inside", "d3:mlin:cross-inside"]
+                   if not _ONLY or l.split(":")[0] in _ONLY]
 
 CLASSES = {1: Caching1D, 2: Caching2D, 3: Caching3D}
+PYFUNC = {1: PythonFunction1D, 2: PythonFunction2D, 3: PythonFunction3D}
 
 
 # ------------------------------------------------------------------------------------------------ geometry helpers
@@ -189,10 +201,22 @@ class Fn:
 
 
 # ------------------------------------------------------------------------------------------------ strategy
-def _axis():
+_INT_W = [2, 3, 4, 5, 7, 8, 10, 12, 20, 50, 100]
+_INT_R = [0.25, 0.5, 1.0, 2.0, 5.0, 10.0, 25.0]
+LARGE = {1: 200, 2: 40}                      # largest cell count per axis (3-D stays at 12, see RULE)
+
+
+def _axis(dim):
+    """[kind, width, centre/width, cells, r]; kinds: float (3..12 cells), small (1 or 2 cells), large, int (integer geometry)."""
     width = st.one_of(st.sampled_from([0.01, 0.1, 1.0, 2.0, 7.0, 10.0, 100.0]), st.floats(0.01, 100.0))
     cw = st.one_of(st.just(0.0), st.floats(-1.0, 1.0), st.floats(-MAX_CW, MAX_CW), st.sampled_from([-MAX_CW, MAX_CW, 0.5, -0.5]))
-    return st.tuples(width, cw, st.integers(3, 12), st.one_of(st.floats(0.05, 0.95), st.just(0.0)))
+    rf = st.one_of(st.floats(0.05, 0.95), st.just(0.0))
+    kinds = [st.tuples(st.just("float"), width, cw, st.integers(3, 12), rf)] * 5
+    kinds.append(st.tuples(st.just("small"), width, cw, st.integers(0, 2), rf))
+    kinds.append(st.tuples(st.just("int"), st.sampled_from(_INT_W), st.floats(-9.4, 9.4) | st.just(0.0), st.integers(0, 20), st.just(0.0)))
+    if dim in LARGE:
+        kinds.append(st.tuples(st.just("large"), width, cw, st.integers(13, LARGE[dim]) | st.just(LARGE[dim]), rf))
+    return st.one_of(*kinds).map(list)
 
 
 def _coef():
@@ -202,7 +226,7 @@ def _coef():
 
 def _coord_in(ncell, cell=None, node=None):
     """One axis of a point inside the area: ["c", cell, t]."""
-    ci = st.just(cell) if cell is not None else st.integers(0, ncell - 1)
+    ci = st.just(cell) if cell is not None else st.one_of(st.integers(0, ncell - 1), st.sampled_from([0, ncell - 1]))
     if node is True:
         t = st.just(0.0)
     elif node is False:
@@ -212,25 +236,43 @@ def _coord_in(ncell, cell=None, node=None):
     return st.tuples(st.just("c"), ci, t).map(list)
 
 
+def _coord_special():
+    """Area limits, the coordinate 0.0 / -0.0 (when it lies in the area, else the lower limit), the two ends of the node grid."""
+    return st.sampled_from([["lo"], ["hi"], ["lo"], ["hi"], ["zero", 1], ["zero", -1], ["gmin"], ["gmax"]])
+
+
 def _coord_out():
     return st.one_of(
         st.tuples(st.just("out"), st.sampled_from([-1, 1]), st.floats(-4.0, 3.0)).map(list),
         st.tuples(st.just("near"), st.sampled_from([-1, 1])).map(list))
 
 
+def _forms():
+    """Input forms of the second, 'non-canonical' construction (values are the same doubles)."""
+    return st.fixed_dictionaries({
+        "area": st.sampled_from(["float", "int", "np64", "np32", "npint"]),
+        "res": st.sampled_from(["float", "int", "np64", "np32"]),
+        "fb": st.sampled_from(["tuple", "list", "nd64", "nd32", "ndint", "list-int"]),
+        "nbe": st.sampled_from(["kw", "pos", "int", "omit"]),
+        "pt": st.sampled_from(["float", "np64", "np32", "int"]),
+        "fn": st.sampled_from(["callable", "object"]),
+        "via": st.sampled_from(["call", "evaluate"]),
+        "mutate": st.booleans()})
+
+
 @st.composite
 def _case(draw, dim):
-    axes = [draw(_axis()) for _ in range(dim)]
-    kind = draw(st.sampled_from(["mlin", "quad", "sin", "sin"]))
+    axes = [draw(_axis(dim)) for _ in range(dim)]
+    kind = draw(st.sampled_from(["mlin", "mlin", "quad", "sin", "sin", "const"]))
     amp = 10.0 ** draw(st.integers(-3, 3))
     fb = draw(st.sampled_from(["none", "none", "true", "loose", "loose", "degenerate"]))
-    if fb == "degenerate":                       # documented for "data contains only one value": constant function
+    if kind == "const":                          # equal values at all nodes
         fn = {"kind": "mlin", "co": [amp * draw(_coef())] + [0.0] * (2 ** dim - 1)}
     elif kind == "sin":
         fn = {"kind": "sin", "A": amp * draw(st.floats(0.1, 1.0)) * draw(st.sampled_from([-1.0, 1.0])),
               "off": amp * draw(st.one_of(st.just(0.0), st.floats(0.01, 2.0), st.floats(-2.0, -0.01))),
               "kw": [draw(st.floats(0.5, 2.0 * math.pi)) for _ in range(dim)],
-              "ph": [draw(st.floats(0.0, 2.0 * math.pi)) for _ in range(dim)]}
+              "ph": [draw(st.one_of(st.floats(0.0, 2.0 * math.pi), st.just(0.0))) for _ in range(dim)]}
     else:
         fn = {"kind": kind, "co": [amp * draw(_coef()) for _ in range(2 ** dim)]}
         if kind == "quad":
@@ -238,11 +280,20 @@ def _case(draw, dim):
 
     def build(shrink, kshrink):
         area, res = [], []
-        for (w, cw, n, rf) in axes:
+        for (ak, w, cw, n, rf) in axes:
+            if ak == "int":
+                lo = float(round(cw * shrink * w - 0.5 * w))
+                area += [lo, lo + w]
+                cand = [r for r in _INT_R if 3 <= int(w / r) <= 12]
+                res.append(cand[n % len(cand)])
+                continue
             c = cw * shrink * w
             area += [c - 0.5 * w, c + 0.5 * w]
-            nn = max(n, 4) if rf == 0.0 else n
-            res.append(w / (nn + rf))
+            if ak == "small" and n == 0:
+                res.append(w * (1.0 + max(rf, 0.05)))            # resolution larger than the width: one cell
+            else:
+                nn = max(n, 4) if (rf == 0.0 and ak == "float") else n
+                res.append(w / (nn + rf))
         f2 = fn
         if fn["kind"] == "sin":
             f2 = dict(fn, kw=[max(0.5, v * kshrink) for v in fn["kw"]])
@@ -262,7 +313,7 @@ def _case(draw, dim):
     fn = fn2
     ncell = [n_cells(area[2 * a], area[2 * a + 1], res[a]) for a in range(dim)]
 
-    base = [draw(st.integers(0, ncell[a] - 1)) for a in range(dim)]
+    base = [draw(st.one_of(st.integers(0, ncell[a] - 1), st.sampled_from([0, ncell[a] - 1]))) for a in range(dim)]
     off = [draw(st.sampled_from([-1, 0, 1])) for _ in range(dim)]
     if not any(off):
         off[draw(st.integers(0, dim - 1))] = draw(st.sampled_from([-1, 1]))
@@ -271,6 +322,8 @@ def _case(draw, dim):
         v = base[a] + off[a]
         if v < 0 or v > ncell[a] - 1:
             v = base[a] - off[a]
+        if v < 0 or v > ncell[a] - 1:
+            v = base[a]                              # single-cell axis
         nb.append(v)
 
     def in_cell(cell, node=None):
@@ -283,8 +336,8 @@ def _case(draw, dim):
         pts.append([["c", hi_cell[a], 0.0] if nb[a] != base[a] else draw(_coord_in(ncell[a], base[a])) for a in range(dim)])
     if draw(st.booleans()):
         pts.append(in_cell(draw(st.sampled_from([base, nb])), True))
-    for _ in range(draw(st.integers(0, 2))):     # anywhere, incl. on nodes and on the area limits
-        pts.append([draw(st.one_of(_coord_in(ncell[a]), _coord_in(ncell[a]), st.sampled_from([["lo"], ["hi"]]))) for a in range(dim)])
+    for _ in range(draw(st.integers(0, 2))):     # anywhere, incl. on nodes, on the area limits, at 0.0 and on the grid ends
+        pts.append([draw(st.one_of(_coord_in(ncell[a]), _coord_in(ncell[a]), _coord_special())) for a in range(dim)])
     for _ in range(draw(st.sampled_from([0, 1, 1, 2]))):
         p = [draw(st.one_of(_coord_in(ncell[a]), _coord_out())) for a in range(dim)]
         if all(c[0] == "c" for c in p):
@@ -292,8 +345,10 @@ def _case(draw, dim):
         pts.append(p)
     pts = list(draw(st.permutations(pts)))
     perm = list(draw(st.permutations(list(range(len(pts))))))
+    alts = list(draw(st.permutations([m for m in ("none", "true", "loose", "degenerate") if m != fb])))[:2]
     return {"dim": dim, "area": area, "res": res, "nbe": draw(st.booleans()), "fb": fb,
             "fb_x": [draw(st.sampled_from([0.0, 1.0, 10.0, 100.0])) * draw(st.floats(0.0, 1.0)) for _ in range(2)],
+            "alts": alts, "forms": draw(_forms()),
             "f": fn, "pts": pts, "perm": perm, "shrunk": shrunk}
 
 
@@ -307,6 +362,12 @@ def _coord(desc, lo, hi, g):
         return lo
     if k == "hi":
         return hi
+    if k == "zero":
+        return (0.0 if int(desc[1]) > 0 else -0.0) if lo <= 0.0 <= hi else lo
+    if k == "gmin":
+        return g[0]
+    if k == "gmax":
+        return g[-1]
     w = hi - lo
     sgn = int(desc[1])
     dist = 3e-7 if k == "near" else max(w * 10.0 ** float(desc[2]), 3e-7)
@@ -322,34 +383,96 @@ def _klass(x, lo, hi):
 
 
 def _cell_of(x, g):
-    n = len(g) - 1
-    for i in range(n):
-        if x < g[i + 1]:
-            return i
-    return n - 1
+    return min(max(bisect.bisect_right(g, x) - 1, 0), len(g) - 2)
 
 
 def _bits(v):
     return None if v is None else float(v).hex()
 
 
-def _make(case, fn, fbmode=None):
-    dim = case["dim"]
-    mode = case["fb"] if fbmode is None else fbmode
+def _fb_of(case, fn, mode):
     lo, hi = fn.range
     if mode == "none":
-        fb = None
-    elif mode == "true":
-        fb = (lo, hi)
-    elif mode == "degenerate":
-        fb = (lo, lo)
-    else:
-        fb = (lo - float(case["fb_x"][0]) * fn.absmax, hi + float(case["fb_x"][1]) * fn.absmax)
+        return None
+    if mode == "true":
+        return (lo, hi)
+    if mode == "degenerate":                       # min == max: the constructor falls back to data_delta = 1 (a pure shift)
+        return (lo, lo)
+    return (lo - float(case["fb_x"][0]) * fn.absmax, hi + float(case["fb_x"][1]) * fn.absmax)
+
+
+def _make(case, fn, fbmode=None):
+    """Canonical construction: tuples of Python floats, keywords."""
+    dim = case["dim"]
+    fb = _fb_of(case, fn, case["fb"] if fbmode is None else fbmode)
     area = tuple(float(v) for v in case["area"])
     res = float(case["res"][0]) if dim == 1 else tuple(float(v) for v in case["res"])
     cache = CLASSES[dim](fn, area, res, no_boundary_error=bool(case["nbe"]), function_boundaries=fb)
     S = fn.absmax if fb is None else max(fn.absmax, abs(fb[0]), abs(fb[1]))
     return cache, S
+
+
+def _num(v, form):
+    """The double v as another numeric type - only where that type holds exactly the same value."""
+    v = float(v)
+    if form in ("int", "npint", "list-int", "ndint") and v == int(v) and abs(v) < 2 ** 53:
+        return int(v) if form in ("int", "list-int") else np.int64(int(v))
+    if form in ("np32", "nd32") and float(np.float32(v)) == v:
+        return np.float32(v)
+    if form in ("np64", "np32", "npint", "nd64", "nd32", "ndint"):
+        return np.float64(v)
+    return v
+
+
+def _make_forms(case, fn, forms, labels):
+    """Same configuration through other accepted input forms. Returns (cache, fb_object, fb_copy)."""
+    dim = case["dim"]
+    fbv = _fb_of(case, fn, case["fb"])
+    area = tuple(_num(v, forms["area"]) for v in case["area"])
+    if any(type(v) is not float for v in area):
+        labels.append("form:area-" + ("int" if any(isinstance(v, (int, np.integer)) for v in area) else "numpy"))
+    r = [_num(v, forms["res"]) for v in case["res"]]
+    if any(type(v) is not float for v in r):
+        labels.append("form:res-" + ("int" if any(isinstance(v, (int, np.integer)) for v in r) else "numpy"))
+    res = r[0] if dim == 1 else tuple(r)
+    fb = fbv
+    if fbv is not None:
+        f = forms["fb"]
+        if f in ("list", "list-int"):
+            fb = [_num(v, f) for v in fbv]
+            labels.append("form:fb-list")
+        elif f in ("nd64", "nd32", "ndint"):
+            vals = [_num(v, f) for v in fbv]
+            dt = np.float64
+            if all(isinstance(v, np.integer) for v in vals):
+                dt = np.int64
+            elif all(isinstance(v, (np.float32, np.integer)) and float(np.float32(v)) == float(v) for v in vals):
+                dt = np.float32
+            fb = np.array([float(v) for v in vals], dtype=dt)
+            labels.append("form:fb-ndarray")
+    func = fn
+    if forms["fn"] == "object":                     # a raysect Function object instead of a bare callable (autowrap passes it through)
+        func = PYFUNC[dim](fn)
+        labels.append("form:fn-object")
+    nbe = bool(case["nbe"])
+    cls = CLASSES[dim]
+    how = forms["nbe"]
+    if how == "omit" and not nbe and fb is None:
+        cache = cls(func, area, res)                # documented defaults apply
+        labels.append("form:defaults-omitted")
+    elif how == "omit" and not nbe:
+        cache = cls(func, area, res, function_boundaries=fb)
+        labels.append("form:nbe-omitted")
+    elif how == "pos":
+        cache = cls(func, area, res, nbe, fb)
+        labels.append("form:positional")
+    elif how == "int":
+        cache = cls(func, area, res, int(nbe), fb)
+        labels.append("form:nbe-int")
+    else:
+        cache = cls(function_boundaries=fb, no_boundary_error=nbe, resolution=res, space_area=area, **{"function%dd" % dim: func})
+        labels.append("form:all-keywords")
+    return cache, fb
 
 
 def run(case, ctx):
@@ -387,15 +510,30 @@ def run(case, ctx):
     fnA, A, S = new()
     kappa = kappa_of(dim, area, res, spec)
     tol = min(FP_BASE * kappa, FP_CAP) * S
-    curv_bound = C_APPROX * sum(h[a] ** 2 * fnA.curv[a] for a in range(dim))
+    h_eff = [max(h[a], res[a]) for a in range(dim)]           # 1- and 2-cell axes: the outer stencil step (res) can exceed h
+    curv_bound = C_APPROX * sum(h_eff[a] ** 2 * fnA.curv[a] for a in range(dim))
+    width = [area[2 * a + 1] - area[2 * a] for a in range(dim)]
+    divides = [abs(res[a] * round(width[a] / res[a]) - width[a]) <= 1e-12 * width[a] for a in range(dim)]
 
     ctx.label("fam:%s" % fnA.kind, "fb:%s" % case["fb"], "nbe:%d" % nbe,
               "kappa:1e%02d" % int(math.floor(math.log10(kappa))),
               "cw<=%s" % (next(b for b in (0.5, 1, 3, 10, 99) if max(
                   abs(0.5 * (area[2 * a] + area[2 * a + 1])) / (area[2 * a + 1] - area[2 * a]) for a in range(dim)) <= b * 1.0000001)))
-    if any(abs(res[a] * round((area[2 * a + 1] - area[2 * a]) / res[a]) - (area[2 * a + 1] - area[2 * a])) <= 1e-12 * (area[2 * a + 1] - area[2 * a])
-           for a in range(dim)):
+    if any(divides):
         ctx.label("res:divides")
+    for a in range(dim):
+        ctx.label("cells:%s" % ("1" if ncell[a] == 1 else "2" if ncell[a] == 2 else "3-12" if ncell[a] <= 12 else "large"))
+    if ncell and max(ncell) == LARGE.get(dim, 12):
+        ctx.label("cells:max")
+    if all(float(v) == int(v) for v in area):
+        ctx.label("geom:int")
+    if dim > 1 and max(width) >= 100.0 * min(width) and len(set(ncell)) > 1:
+        ctx.label("aniso")
+    if case["fb"] == "degenerate" and not fnA.constant:
+        ctx.label("fb:degenerate-nonconst")
+    if fnA.constant:
+        ctx.label("fam:const")
+    cross = fnA.kind == "mlin" and any(cm != 0.0 and bin(m).count("1") >= 2 for m, cm in enumerate(fnA.co))
     if kappa * FP_BASE > FP_CAP:
         ctx.label("tol-capped")
     if case.get("shrunk"):
@@ -424,6 +562,7 @@ def run(case, ctx):
                 ctx.check(v is None, "outside/raise", lambda: "no ValueError outside the area, got %r; %s" % (v, info))
             continue
         if v is None:
+            ctx.label("pt:margin-raised")
             continue                              # margin point treated as outside
         ctx.check(math.isfinite(v), "finite", lambda: "value %r; %s" % (v, info))
         want = fnA.value(p)
@@ -439,10 +578,20 @@ def run(case, ctx):
             ctx.check(err <= tol, "multilinear",
                       lambda: "|cache-f|=%.6g > fp tol %.3g for a function linear in each coordinate; cache=%r f=%r kappa=%.3g S=%.3g; %s"
                       % (err, tol, v, want, kappa, S, info))
-        if any(d[0] == "c" and float(d[2]) == 0.0 for d in case["pts"][i]):
+        desc = case["pts"][i]
+        if any(d[0] == "c" and float(d[2]) == 0.0 for d in desc):
             ctx.label("pt:on-node")
-        if any(d[0] in ("lo", "hi") for d in case["pts"][i]):
+        if any(d[0] in ("lo", "hi") for d in desc):
             ctx.label("pt:on-limit")
+        if any(d[0] == "zero" and p[a] == 0.0 for a, d in enumerate(desc)):
+            ctx.label("pt:zero")
+        if any(d[0] in ("gmin", "gmax") for d in desc):
+            ctx.label("pt:grid-end")
+        strictly = all(d[0] == "c" and 0.0 < float(d[2]) < 1.0 for d in desc)
+        if cross and strictly:
+            ctx.label("mlin:cross-inside")
+        if strictly and any(not divides[a] and ncell[a] >= 3 and cells[i][a] in (0, ncell[a] - 1) for a in range(dim)):
+            ctx.label("edge-cell:nondiv")
 
     nodes_snapshot = list(fnA.calls)
 
@@ -489,10 +638,9 @@ def run(case, ctx):
                   % (v, want, abs(v - want), tol, kappa, S, nd))
 
     # ---- function_boundaries only rescale internally
-    others = [m for m in ("none", "true", "loose") if m != case["fb"]]
-    if case["fb"] != "degenerate" and fnA.constant:
-        others.append("degenerate")
+    others = case.get("alts") or [m for m in ("none", "true", "loose") if m != case["fb"]]
     for m in others:
+        ctx.label("alt:%s" % m)
         fnM, CM, SM = new(m)
         tolM = min(FP_BASE * kappa, FP_CAP) * SM
         for i, p in enumerate(pts):
@@ -504,6 +652,34 @@ def run(case, ctx):
             ctx.check(abs(v - vA[i]) <= tol + tolM, "bounds",
                       lambda: "function_boundaries=%s gives %r, %s gives %r: |diff|=%.6g > %.3g (kappa=%.3g, S=%.3g/%.3g) at p=%r"
                       % (case["fb"], vA[i], m, v, abs(v - vA[i]), tol + tolM, kappa, S, SM, p))
+
+    # ---- other accepted input forms of the same configuration, caller-owned bounds, C-level entry point
+    forms = case.get("forms")
+    if forms:
+        labels = []
+        fnF = Fn(spec, dim, area, res)
+        with ctx.cut("forms/constructor"):
+            F, fbobj = _make_forms(case, fnF, forms, labels)
+        if isinstance(fbobj, (list, np.ndarray)):
+            want_fb = _fb_of(case, fnF, case["fb"])
+            ctx.check([float(v) for v in fbobj] == [float(v) for v in want_fb], "caller-data/modified",
+                      lambda: "the constructor changed the caller's function_boundaries %r -> %r" % (want_fb, list(fbobj)))
+            if forms.get("mutate"):
+                fbobj[0], fbobj[1] = 12345, -7       # the caller re-uses its container: the cache must not see this
+                labels.append("caller:fb-mutated-after")
+        G = F
+        if forms.get("via") == "evaluate":
+            G = F * 1.0                              # raysect MultiplyScalar: calls F.evaluate() at C level; x * 1.0 is exact
+            labels.append("form:via-evaluate")
+        pform = forms.get("pt", "float")
+        for i, p in enumerate(pts):
+            q = tuple(_num(v, pform) for v in p)
+            if any(type(v) is not float for v in q):
+                labels.append("form:pt-" + ("int" if any(isinstance(v, (int, np.integer)) for v in q) else "numpy"))
+            v = ev(G, q, "forms/evaluate")
+            ctx.check(_bits(v) == _bits(vA[i]), "forms/value",
+                      lambda: "forms %r: %r, canonical float/tuple/keyword form: %r at p=%r (passed as %r)" % (forms, v, vA[i], p, q))
+        ctx.label(*sorted(set(labels)))
 
     # ---- non-triviality
     seqA = [cells[i] for i in range(len(pts)) if vA[i] is not None and kl[i] != "out"]
